@@ -29,7 +29,7 @@ theorem leaveRoom_sess (a : Acc) (s : Nat) {orph : List Nat} (hi : InvX orph a.h
       have e : (leaveRoom a s).1.h = a.h := by unfold leaveRoom; simp only [hx, hr]
       rw [e]; have := base a.h (CoreEq.refl _); grind
     | some r =>
-      obtain ⟨rm, hrm, hmem⟩ := hi.room_mem s x r hx hr
+      obtain ⟨rm, hrm, hmem⟩ := hi.room_mem' s x r hx hr
       have e := (leaveRoom_core a s hx hr hrm hmem).sess_fields t
       have hs : (leaveStruct a.h s x r rm).sess t =
           if t = s then some { x with room := none, roomSess := "", seenJoin := [] } else a.h.sess t := by
@@ -40,7 +40,7 @@ theorem leaveRoom_sess (a : Acc) (s : Nat) {orph : List Nat} (hi : InvX orph a.h
       · subst hts; simp only [if_true] at hs ⊢; grind
       · simp only [hts, if_false] at hs ⊢; grind
 
-theorem InvX.mono {orph : List Nat} {h : Hub} (hi : InvX orph h) (v : Nat)
+theorem InvG.mono {orph : List Nat} {h : Hub} (hi : InvX orph h) (v : Nat)
     (hv : ∀ y, h.sess v = some y → y.kind = .virtual) : InvX (v :: orph) h := by
   obtain ⟨f1, f2, f3, f4, f5, f6, f7, f8, f9, f10, f11, f12, f13, f14, f15, f16, f17, f18, f19, f20, f21, f22, f23⟩ := hi
   constructor
@@ -52,7 +52,7 @@ theorem facts_vtable : Generated.Hub.vtableClearedOnClose = true := by decide
 
 
 /-- Shrinking the orphan list by a session that is gone. -/
-theorem InvX.shrink_dead {orph : List Nat} {h : Hub} (hi : InvX orph h) (v : Nat) (hv : h.sess v = none) :
+theorem InvG.shrink_dead {orph : List Nat} {h : Hub} (hi : InvX orph h) (v : Nat) (hv : h.sess v = none) :
     InvX (removeL orph v) h := by
   obtain ⟨f1, f2, f3, f4, f5, f6, f7, f8, f9, f10, f11, f12, f13, f14, f15, f16, f17, f18, f19, f20, f21, f22, f23⟩ := hi
   constructor
